@@ -139,7 +139,9 @@ def validate(
         else:
             continue
         if validator.field is not None:
-            alias = getattr(get_alias(validator.owner), get_field_name(validator.field))
+            # the alias of the field in the class being validated (a subclass may
+            # rename an inherited field, or have another class aliaser)
+            alias = getattr(get_alias(obj.__class__), get_field_name(validator.field))
             err = ValidationError(children={aliaser(alias): err})
         error = merge_errors(error, err)
         if validator.discard:
